@@ -14,7 +14,7 @@ use std::collections::BTreeSet;
 
 pub struct C04;
 
-pub const SEL_NAMES: &[&str] = &["div", "p", "span", "a", "b", "ul", "li", "section", "h1", "em", "x-foo", "td", "i", "br", "img", "svg", "g", "path", "circle", "math", "mi", "DIV", "Span", "foreignobject", "title", "1a", "1div", "11p", "1"];
+pub const SEL_NAMES: &[&str] = &["div", "p", "span", "a", "b", "ul", "li", "section", "h1", "em", "x-foo", "td", "i", "br", "img", "svg", "g", "path", "circle", "math", "mi", "DIV", "Span", "foreignobject", "title", "1a", "1div", "11p", "1", "x-aa", "y-ee", "z:gg", "a0bc"];
 
 pub fn gen_opts() -> select::GenOpts<'static> {
     select::GenOpts { names: SEL_NAMES, attrs: wl::TREE_ATTRS, values: wl::TREE_VALUES, allow_not: true, allow_escapes: false }
@@ -22,18 +22,28 @@ pub fn gen_opts() -> select::GenOpts<'static> {
 
 pub fn gen_case(rng: &mut Rng) -> Case {
     let o = gen_opts();
-    let doc = wl::tree(rng, &wl::TreeOpts { max_depth: 6, max_children: 4, ..Default::default() });
+    let custom = rng.chance(1, 10);
+    let doc = wl::tree(rng, &wl::TreeOpts { max_depth: if custom { 3 } else { 6 }, max_children: if custom { 9 } else { 4 }, custom, ..Default::default() });
     let mut sc = Scenario::new(doc.bytes);
     sc.strict = false;
     sc.esi = rng.chance(1, 5);
-    let n = match rng.below(10) {
-        0 => rng.range(33, 40), // cross the inline DenseHashSet
-        1 | 2 => rng.range(6, 14),
-        _ => rng.range(1, 5),
+    // sparse large sets: most selectors match nothing, so the matched indexes of one element are
+    // spread over several words of the match bitset with empty words in between
+    let many = rng.chance(1, 25);
+    let n = if many {
+        rng.range(65, 130)
+    } else {
+        match rng.below(10) {
+            0 => rng.range(33, 40), // cross the inline DenseHashSet
+            1 | 2 => rng.range(6, 14),
+            _ => rng.range(1, 5),
+        }
     };
     let mut sels: Vec<SelList> = vec![];
-    for _ in 0..n {
-        let s = if !sels.is_empty() && rng.chance(1, 3) {
+    for k in 0..n {
+        let s = if many && !rng.chance(1, 8) {
+            SelList(vec![select::Complex { first: select::Compound(vec![select::Simple::Class(format!("k{k}"))]), rest: vec![] }])
+        } else if !sels.is_empty() && rng.chance(1, 3) {
             // share a prefix with an earlier selector on purpose
             let base = rng.pick(&sels.iter().collect::<Vec<_>>()).clone();
             let mut c = base.0[0].clone();
@@ -76,7 +86,7 @@ impl Property for C04 {
         }
     }
     fn rule(&self) -> &'static str {
-        "one run = one generated element tree serialised with sloppiness (omitted / mismatched / stray end tags, voids, case variants, duplicate attributes, foreign self-closing, integration points) x a set of 1-40 selectors generated as an AST from the full supported grammar (shared prefixes on purpose) x a delivery schedule (context-biased cuts between tag name and attributes); the set of (selector, start tag) handler firings is compared with a direct evaluation of the AST on the tree induced by the observed token stream; one selector is additionally run alone (independence); non-trivial = at least one selector matched at least one element; distinct by scenario fingerprint"
+        "one run = one generated element tree serialised with sloppiness (omitted / mismatched / stray end tags, voids, case variants, duplicate attributes, foreign self-closing, integration points) x a set of 1-40 (1 run in 25: 65-130, mostly non-matching) selectors generated as an AST from the full supported grammar (shared prefixes on purpose) x a delivery schedule (context-biased cuts between tag name and attributes); the set of (selector, start tag) handler firings is compared with a direct evaluation of the AST on the tree induced by the observed token stream; one selector is additionally run alone (independence); non-trivial = at least one selector matched at least one element; distinct by scenario fingerprint"
     }
     fn assumptions(&self) -> Vec<&'static str> {
         vec![
